@@ -130,6 +130,19 @@ def main(argv=None):
         print('VIOLATION property=%s replay=%s' % (pid, args.replay))
         return 1
 
+    # every scratch directory of this run lives under one root which the parent removes whatever happens to the workers
+    import shutil
+    import tempfile
+    from . import tree as _tree
+    run_root = tempfile.mkdtemp(prefix='pcfgmc-run-%s-' % pid.lower(), dir=_tree.tmp_root())
+    os.environ['PCFG_VERIF_TMP'] = run_root
+    try:
+        return _run(args, pid, seed, mod)
+    finally:
+        shutil.rmtree(run_root, ignore_errors=True)
+
+
+def _run(args, pid, seed, mod):
     t0 = time.time()
     shards = list(mod.shards(args.tier))
     # VERIF_SEED only permutes shard-to-worker assignment; the case set is seed independent
